@@ -191,6 +191,27 @@ reg("C11", "exploration",
     "property-based testing (Hypothesis) with metamorphic relations (translation, reflection)",
     "DESIGN.md section 4 C11")
 
+reg("C07", "fault_enumeration",
+    "For every Hypothesis-generated scenario and option set the harness lists all file-system mutation points of the "
+    "main process after .params is saved (file creation, append-open, removal, directory and database creation; "
+    "70-300 points per scenario) and, for every point, kills the run before (quick) or before and after (thorough) "
+    "the mutation, resumes it with --resume and compares every final output with an uninterrupted run: the resumed "
+    "run must exit 0 with identical files. Exhaustive per scenario.",
+    "Crash model: os._exit at Python-level mutations of the main process with --threads 1 (unflushed buffers lost); "
+    "crashes inside sqlite/htslib are one point each; four repaired defects listed as fixed.",
+    "fault injection with exhaustive crash-point enumeration over generated scenarios; differential oracle",
+    "DESIGN.md section 4 C07")
+reg("C20", "exploration",
+    "2-4 logical processes (threads) run the real per-user cache code of isoquant.py / gtf2db.py / read_mapper.py "
+    "against one HOME under a cooperative scheduler owned by the harness that switches at every open, read, write "
+    "chunk, close and rename of the shared JSON files and around the real gffutils conversion; the schedule is a "
+    "Hypothesis-drawn sequence (replayable); every process must finish and use a database built from its own "
+    "annotation. A smoke stage starts 2-6 real processes together and compares each with a solo run.",
+    "Assumes the file system is the only channel between runs and that rename(2)/a single write(2) are atomic; one "
+    "repaired defect listed as fixed.",
+    "property-based testing over harness-owned schedules (cooperative scheduler) + differential smoke runs",
+    "DESIGN.md section 4 C20")
+
 NOT_YET = "check not built yet in this session (see DESIGN.md section 6a build order)"
 
 
